@@ -8,6 +8,11 @@ def run(ctx):
     if getattr(ctx, "replay", None) and "c15-wrapper-case " in open(ctx.replay).read():
         from .. import c15wrap
         return c15wrap.replay(ctx, ctx.replay, open(ctx.replay).read())
+    if getattr(ctx, "replay", None):
+        from .. import stagecamp
+        text = open(ctx.replay).read()
+        if stagecamp.is_replay(text):
+            return stagecamp.replay(ctx, ctx.replay, text)
     if not getattr(ctx, "replay", None):
         from .. import g72x as _g72x
         _g72x.pregen(ctx)
@@ -46,3 +51,7 @@ def run(ctx):
         handleg.run(ctx, "C05", 150 if q else 3000)
         from .. import seekmatrix    # (gapg) deterministic block-seek matrix: every block codec x container x channel count, read into block L, seek into the blocks around it
         seekmatrix.run(ctx, "C05")
+        from .. import stagecamp      # (round 9) ONE short transfer inside the staging loop of EVERY write kernel: the return value is the whole frames that reached the file
+        stagecamp.run(ctx, "C05")
+        from .. import rawwrite       # (round 9) sf_write_raw as the write entry point of a file made in SFM_WRITE: every sample-granular (container, encoding), content behind the audio
+        rawwrite.run(ctx, "C05")
